@@ -289,6 +289,10 @@ class SampleOnOrientedGrid:
                         if tier == "quick" and D == 3 and acs == act:
                             continue
                         yield {"D": D, "mode": "linear", "source_ac": acs, "target_ac": act, "geometry": 0, "api": api}
+        # module API with an explicit `axes` argument that differs from the target grid's own cube convention
+        for api in ("SampleImage", "TransformImage", "AlignImage"):
+            for act in (True, False):
+                yield {"D": 2, "mode": "linear", "source_ac": True, "target_ac": act, "geometry": 0, "api": api, "axes": "cube" if act else "cube_corners"}
 
     def run(self, case, K):
         from deepali.data import ImageBatch
@@ -327,14 +331,18 @@ class SampleOnOrientedGrid:
             import deepali.modules as M
 
             x = K.tensor(ev)
+            from deepali.core.grid import Axes
+
+            kwa = {"axes": Axes(case["axes"])} if "axes" in case else {}
             if api == "SampleImage":
-                m = M.SampleImage(tgt, src, sampling=case["mode"], padding=0)
-                res = K.call(m, tgt.coords(), x)
+                m = M.SampleImage(tgt, src, sampling=case["mode"], padding=0, **kwa)
+                pts = tgt.coords(align_corners=(case["axes"] == "cube_corners")) if "axes" in case else tgt.coords()
+                res = K.call(m, pts, x)
             elif api == "TransformImage":
-                m = M.TransformImage(tgt, src, sampling=case["mode"], padding=0)
+                m = M.TransformImage(tgt, src, sampling=case["mode"], padding=0, **kwa)
                 res = K.call(m, None, x)
             else:
-                m = M.AlignImage(tgt, src, sampling=case["mode"], padding=0)
+                m = M.AlignImage(tgt, src, sampling=case["mode"], padding=0, **kwa)
                 res = K.call(m, None, x)
             if not K.ensure_returns(res):
                 return
@@ -466,3 +474,39 @@ class SampleVsSimpleITK:
             err = float(((out.tensor() - refa).abs() * inside).max())
             K.env["max_err"] = err
             K.ensure("linear-agreement", E.bconst(err < 2e-3), text=Q5 + f" [linear, max abs difference inside the field of view {err:.2e}]")
+
+
+@register
+class ImagePyramid:
+    """ImageBatch.pyramid on a batch of two images with *different* grids: every level is a batch whose image k lies on
+    level l of the pyramid of image k's own grid (Grid.pyramid, under contract in C03), with data of that grid's shape."""
+
+    target = "deepali.data.image:ImageBatch.pyramid"
+    properties = ("C04", "C03")
+    tol = 2e-4
+
+    def cases(self, tier):
+        for levels in (2, 3):
+            yield {"levels": levels}
+
+    def run(self, case, K):
+        from deepali.data import ImageBatch
+
+        D = 2
+        size = (9, 6)
+        g0, s0 = make_grid(K, "g", D, sizes=size)
+        g1, s1 = make_grid(K, "h", D, sizes=size)
+        ev = K.reals("v", (2, 1) + size[::-1])
+        batch = ImageBatch(K.tensor(ev), [g0, g1])
+        res = K.call(batch.pyramid, case["levels"])
+        if not K.ensure_returns(res, text=Q4S):
+            return
+        K.ensure("levels", E.bconst(sorted(res.keys()) == list(range(case["levels"]))), text=Q4S + " [one batch per level]")
+        for k, g in enumerate((g0, g1)):
+            ref = g.pyramid(case["levels"])
+            for lvl, b in res.items():
+                gl = b.grid(k)
+                K.ensure(f"shape[{lvl},{k}]", E.bconst(tuple(b.shape[2:]) == tuple(gl.shape) == tuple(ref[lvl].shape)), text=Q4S + " [data shape = grid shape = shape of that level]")
+                K.ensure_eq(f"spacing[{lvl},{k}]", gl.spacing(), K.val(ref[lvl].spacing()), text=Q4S + f" [level {lvl} of image {k}: its own grid's pyramid level]")
+                K.ensure_eq(f"center[{lvl},{k}]", gl.center(), K.val(ref[lvl].center()), text=Q4S + f" [level {lvl} of image {k}: position]")
+                K.ensure_eq(f"direction[{lvl},{k}]", gl.direction(), K.val(ref[lvl].direction()), text=Q4S + f" [level {lvl} of image {k}: orientation]")
